@@ -1,2 +1,13 @@
 import PeptVerif.Props.C07
+#print axioms Pept.Reorder.C07.slice_residues
+#print axioms Pept.Reorder.C07.slice_nterm
+#print axioms Pept.Reorder.C07.slice_cterm
+#print axioms Pept.Reorder.C07.slice_globals
 #print axioms Pept.Reorder.C07.fastpath_eq
+#print axioms Pept.Reorder.C07.slice_general
+#print axioms Pept.Reorder.C07.dispatcher_eq_slices
+#print axioms Pept.Reorder.C07.relocate_at_offset
+#print axioms Pept.Reorder.C07.partition_weight
+#print axioms Pept.Reorder.C07.mass_partition_exact
+#print axioms Pept.Reorder.C07.mass_conservation_partial
+#print axioms Pept.Reorder.C07.mass_conservation_full_false_on_current_code
